@@ -81,7 +81,7 @@ theorem slotLeaf : Leaf (SlotView P) where
   setClosed := by unfold setClosed; slot_same
   setStopping := by unfold setStopping; slot_same
   setRestarting := by unfold setRestarting; slot_same
-  clearRestarting := by unfold clearRestarting; slot_same
+  clearRestarting := fun b => by unfold clearRestarting; slot_same
   setLoopStop := fun b => by unfold setLoopStop; slot_same
   setSocketEvent := fun b => by unfold setSocketEvent; slot_same
   setSockReady := fun b => by unfold setSockReady; slot_same
